@@ -32,6 +32,9 @@ CHECKS = {
  "C10": dict(cat="exploration", technique="differential kernels of one form under option sets (sum_factorization, part=diagonal, table tolerances, non-applicable options) + oracle + measured table perturbation",
    text="(form, option set) groups are compiled with identical compiler flags and executed on the same data: sum factorisation on/off on tensor-product meshes, diagonal vs diagonal of the full tensor, tolerance grid bounded by 50x the measured table perturbation, and options that do not apply must be bitwise without effect and must not fail.",
    note="One open known finding (non-tensor-product elements with sum_factorization assert). UFL-side rejection of extract_blocks forms is not counted.", ref="3/C10"),
+ "C11": dict(cat="exploration", technique="kernel output vs exact rational closed-form monomial integrals (enumerated cells x degrees x schemes) + oracle for rule mixtures with discrimination test",
+   text="For every cell type and requested degree (0..30 thorough; 9 degrees quick) one kernel with the monomial exponents as constants is executed for several monomials of the maximal admissible degree on random rational affine cells and compared with exact closed forms (arity 0/1, exterior facets, GLL/Gauss-Jacobi); polynomial forms without metadata and the vertex scheme likewise; rule mixtures and quadrature elements are compared with the oracle applying each rule to its own integrand.",
+   note="Closed forms are independent of UFL/basix quadrature (exact rational polynomial algebra). Enumerated sub-space is exhaustive in (cell, degree) only; monomials are sampled.", ref="3/C11"),
 }
 NA_REASON = "check not built yet in this round (runtime monitoring applies; see DESIGN.md section 3)"
 
